@@ -40,6 +40,11 @@ NEAR = [(0.3, 1), (0.1 + 0.2, 9), (1.0, 1), (1.0 + 6e-13, 5), (1.0 + 1.2e-12, 9)
         (0.3, 5), (1.0, 5), (1.0 - 1e-16, 1), (0.1 + 0.2, 1), (2.0, 5)]
 
 
+B53 = 2 ** 53
+BIG = [(B53 + 1, 9), (B53, 1), (B53 + 1, 5), (B53, 5), (B53 + 3, 10),
+       (B53 + 2, 1), (B53, 7), (B53 + 1, 1), (B53 + 2, 5), (B53 + 3, 5)]
+
+
 class _T:
     def h(self):
         pass
@@ -59,10 +64,15 @@ def make_pool(kind, K, order, rot):
     elif order == "interleaved":
         idx = idx[1::2] + idx[0::2]
     near = NEAR[rot % len(NEAR):] + NEAR[:rot % len(NEAR)]
+    big = BIG[rot % len(BIG):] + BIG[:rot % len(BIG)]
     for i in idx:
         t, p = spec[i]
         if kind == "mixed":
             tv = mixed[i]
+        elif kind == "bigint":
+            # tick / epoch-nanosecond clocks: distinct ints that collapse to
+            # one double, later times carrying the higher priority
+            tv, p = big[i]
         elif kind == "nearfloat":
             tv, p = near[i]
         elif kind == "nearduration":
@@ -75,7 +85,9 @@ def make_pool(kind, K, order, rot):
 
 
 def ref_key(e):
-    return (float(e.time), -e.priority, e.id)
+    # the time itself, not float(time): ints beyond 2^53 must stay exact
+    # (Python compares int/float exactly; Durations compare on SI values)
+    return (e.time, -e.priority, e.id)
 
 
 # ---------------------------------------------------------------- ops
@@ -231,6 +243,10 @@ def explore_pool(task):
     outcomes = set()
     maxdepth = 0
     capped = False
+    # if the internal array is not introspectable the state is the history
+    # itself: bound the depth (reported as a cap)
+    el, ref = build(pool, (("add", 0),))
+    fallback_depth = 4 if canon(el, pool, ())[0] == "hist" else None
     # initial state queries
     el, ref = build(pool, ())
     for b in observe_all(el, ref, pool, K):
@@ -238,6 +254,9 @@ def explore_pool(task):
     while frontier:
         hist, present = frontier.popleft()
         maxdepth = max(maxdepth, len(hist))
+        if fallback_depth is not None and len(hist) >= fallback_depth:
+            capped = True
+            continue
         for op in ops_for(K, present):
             transitions += 1
             bad, c, pres2 = check_history(pool, K, hist, op)
@@ -253,7 +272,7 @@ def explore_pool(task):
                     continue
                 seen[c] = hist + (op,)
                 frontier.append((hist + (op,), pres2))
-    descr = [(float(e.time), e.priority, e.id) for e in pool]
+    descr = [(repr(e.time), e.priority, e.id) for e in pool]
     return dict(kind=kind, K=K, order=order, rot=rot, states=len(seen),
                 transitions=transitions, maxdepth=maxdepth, viols=viols,
                 capped=capped, pool=descr, outcomes=len(outcomes),
@@ -293,7 +312,7 @@ def check_order(task):
         if a < b and b < c and not a < c:
             bad.append(("transitivity", i, j, k))
     return dict(kind=kind, n=n, bad=bad[:20], nbad=len(bad),
-                pool=[(float(e.time), e.priority, e.id) for e in pool])
+                pool=[(repr(e.time), e.priority, e.id) for e in pool])
 
 
 # ---------------------------------------------------------------- raw depth
@@ -337,7 +356,7 @@ def run(ctx):
     quick = ctx.tier == "quick"
     K = 7 if quick else 8
     kinds = ["int", "float", "mixed", "duration", "nearfloat",
-             "nearduration"]
+             "nearduration", "bigint"]
     orders = ["index", "reversed"] if quick else ["index", "reversed",
                                                   "interleaved"]
     rots = [0, (ctx.seed % 9) + 1] if ctx.seed else [0]
